@@ -72,7 +72,108 @@ def check(prog: Program, tier: str) -> Result:
     res.analysed(ifi.qualname)
     _cells(prog, res, env0)
     _stencil(prog, res, env0)
+    _frame(prog, res, ifi)
     return res
+
+
+def _frame(prog: Program, res: Result, ifi):
+    """R10.9: the rules above evaluate fill_radial_cells / calc_sts_g_functions on the attribute values the constructor
+    computes.  That is the state of the object only if no other method leaves it half-updated: a method that re-assigns an
+    attribute must also re-assign every attribute the constructor computes FROM it (transitively), after it, and by the same
+    formula - otherwise the mesh is built from radii and thicknesses that no longer belong together."""
+    from ..model import walk_no_nested
+
+    cls = prog.cls(CLS)
+    init = ifi.node
+    # constructor: attribute -> (statement, attributes read)
+    defs = {}
+    for s_ in walk_no_nested(init):
+        if isinstance(s_, ast.Assign) and len(s_.targets) == 1 and (attr_chain(s_.targets[0]) or "").startswith("self.") and attr_chain(s_.targets[0]).count(".") == 1:
+            x = attr_chain(s_.targets[0])
+            reads = {attr_chain(a) for a in ast.walk(s_.value) if isinstance(a, ast.Attribute) and (attr_chain(a) or "").startswith("self.") and attr_chain(a).count(".") == 1}
+            defs[x] = (s_, reads - {x})
+    derived = {}  # y -> attributes computed from y, transitively
+    for y in defs:
+        out, work = set(), [y]
+        while work:
+            cur = work.pop()
+            for x, (_, reads) in defs.items():
+                if cur in reads and x not in out:
+                    out.add(x)
+                    work.append(x)
+        derived[y] = out
+    n_links = sum(len(v) for v in derived.values())
+    res.count("derived_attribute_links", n_links)
+    res.floor("derived_attribute_links", 15)
+
+    def writes_of(m, seen=()):
+        """[(attribute, statement)] in textual order, calls of the object's own methods expanded"""
+        out = []
+        for s_ in walk_no_nested(m.node):
+            if isinstance(s_, (ast.Assign, ast.AugAssign)):
+                for t in (s_.targets if isinstance(s_, ast.Assign) else [s_.target]):
+                    for tt in (t.elts if isinstance(t, (ast.Tuple, ast.List)) else [t]):
+                        c = attr_chain(tt)
+                        if c and c.startswith("self.") and c.count(".") == 1:
+                            out.append((c, s_))
+            elif isinstance(s_, ast.Call) and isinstance(s_.func, ast.Attribute) and attr_chain(s_.func.value) == "self" and s_.func.attr in cls.methods and s_.func.attr not in seen and s_.func.attr != "__init__":
+                out.extend((c, s_) for c, _ in writes_of(cls.methods[s_.func.attr], seen + (m.name,)))
+        out.sort(key=lambda cs: (cs[1].lineno, cs[1].col_offset))
+        return out
+
+    n_m = 0
+    for mname, m in sorted(cls.methods.items()):
+        if mname == "__init__":
+            continue
+        n_m += 1
+        ws = writes_of(m)
+        order = {}
+        for k, (c, s_) in enumerate(ws):
+            order.setdefault(c, k)
+            order[c + "#last"] = k
+        bad = []
+        for y in sorted({c for c, _ in ws}):
+            for x in sorted(derived.get(y, ())):
+                if x not in order:
+                    bad.append((y, x, "is left as it was"))
+                elif order[x + "#last"] < order[y]:
+                    bad.append((y, x, "is recomputed before it, from the old value"))
+        res.ob("R10.9", f"{mname}: every attribute it re-assigns ({', '.join(sorted({c[5:] for c, _ in ws})) or 'none'}) takes the attributes the constructor derives from it along", not bad, prog.loc(m, m.node))
+        for y, x, how in bad[:4]:
+            st_ = next(s_ for c, s_ in ws if c == y)
+            res.violation("R10.9", f"stale-derived|{mname}|{y}|{x}", prog.loc(m, st_), m.qualname,
+                          f"{mname}() re-assigns {y}, but {x} - which the constructor computes from it ({norm_stmt(defs[x][0])[:90]}) - {how}: the mesh is then built from values that do not belong together")
+        # same formula: a re-assigned constructor attribute whose constructor formula reads only attributes must be recomputed by it
+        if ws and not bad:
+            eng = Engine(prog, m, Hooks())
+            st0 = State()
+            for p_ in m.params():
+                if p_ != "self":
+                    st0.env[p_] = Rat.atom(p_)
+            for x in defs:
+                st0.env[x] = Rat.atom(x)
+            try:
+                fin = eng.run_function(st0)
+            except AnalysisError:
+                fin = []
+            for f_ in fin[:8]:
+                for x in sorted({c for c, s_ in ws if c in defs and isinstance(s_, (ast.Assign, ast.AugAssign))}):  # its own statements, not those of the methods it calls
+                    rhs = defs[x][0].value
+                    if any(isinstance(a, ast.Name) and a.id != "self" and not (a.id in prog.modules[ifi.module].constants or a.id in prog.modules[ifi.module].imports) for a in ast.walk(rhs) if isinstance(a, ast.Name)):
+                        continue  # formula uses constructor locals / its parameter
+                    e2 = Engine(prog, ifi, Hooks())
+                    s2 = State()
+                    s2.env = dict(f_.env)
+                    want = e2.eval(rhs, s2)
+                    got = f_.env.get(x)
+                    if isinstance(want, Rat) and isinstance(got, Rat):
+                        ok = got.equals(want)
+                        res.ob("R10.9", f"{mname}: {x} is recomputed by the constructor's formula", ok, prog.loc(m, m.node))
+                        if not ok:
+                            res.violation("R10.9", f"formula|{mname}|{x}", prog.loc(m, next(s_ for c, s_ in ws if c == x)), m.qualname,
+                                          f"{mname}() sets {x} to {got.key()[:80]}; the constructor's formula gives {want.key()[:80]} for the same state")
+    if n_m < 3:
+        raise AnalysisError(f"{CLS}: methods not found")
 
 
 # ---------------------------------------------------------------------------
@@ -670,6 +771,10 @@ _LOOP_OLD = """        while True:
 """
 
 VARIANTS = [
+    Variant("partial_init refreshes the borehole radius and the soil cells but not the grout cells (seeded C10_e)", "break", [(RN, "        self.calc_time_in_sec = max([self.t_s * exp(-8.6), 49.0 * SEC_IN_HR])\n\n    def fill_radial_cells", "        self.calc_time_in_sec = max([self.t_s * exp(-8.6), 49.0 * SEC_IN_HR])\n        self.r_borehole = single_u_tube.b.r_b\n        self.thickness_soil_cell = (self.r_far_field - self.r_borehole) / self.num_soil_cells\n\n    def fill_radial_cells")], "R10.9"),
+    Variant("partial_init refreshes the borehole radius and both regions that touch it", "benign", [(RN, "        self.calc_time_in_sec = max([self.t_s * exp(-8.6), 49.0 * SEC_IN_HR])\n\n    def fill_radial_cells", "        self.calc_time_in_sec = max([self.t_s * exp(-8.6), 49.0 * SEC_IN_HR])\n        self.r_borehole = single_u_tube.b.r_b\n        self.thickness_soil_cell = (self.r_far_field - self.r_borehole) / self.num_soil_cells\n        self.thickness_grout_cell = (self.r_borehole - self.r_out_tube) / self.num_grout_cells\n\n    def fill_radial_cells")]),
+    Variant("partial_init recomputes the cell thicknesses before it refreshes the radius they depend on", "break", [(RN, "        self.calc_time_in_sec = max([self.t_s * exp(-8.6), 49.0 * SEC_IN_HR])\n\n    def fill_radial_cells", "        self.calc_time_in_sec = max([self.t_s * exp(-8.6), 49.0 * SEC_IN_HR])\n        self.thickness_soil_cell = (self.r_far_field - self.r_borehole) / self.num_soil_cells\n        self.thickness_grout_cell = (self.r_borehole - self.r_out_tube) / self.num_grout_cells\n        self.r_borehole = single_u_tube.b.r_b\n\n    def fill_radial_cells")], "R10.9"),
+    Variant("partial_init recomputes the soil cell thickness with the grout cell count", "break", [(RN, "        self.calc_time_in_sec = max([self.t_s * exp(-8.6), 49.0 * SEC_IN_HR])\n\n    def fill_radial_cells", "        self.calc_time_in_sec = max([self.t_s * exp(-8.6), 49.0 * SEC_IN_HR])\n        self.r_borehole = single_u_tube.b.r_b\n        self.thickness_soil_cell = (self.r_far_field - self.r_borehole) / self.num_grout_cells\n        self.thickness_grout_cell = (self.r_borehole - self.r_out_tube) / self.num_grout_cells\n\n    def fill_radial_cells")], "R10.9"),
     Variant("time step coarsened after 30 days, matrix rebuilt but the source term keeps the old capacity (seeded C10)", "break",
             [(RN, _ASM_OLD_1, ""), (RN, _ASM_OLD_2, _ASM_NEW_2),
              (RN, _LOOP_OLD, """        while True:
